@@ -16,7 +16,10 @@
 #include "table/iterator.h"
 
 #define CUR_NCH 3
-#define CUR_MAXLEN 3
+#ifndef MERGE_MAXLEN
+#define MERGE_MAXLEN 3
+#endif
+#define CUR_MAXLEN MERGE_MAXLEN
 #define CUR_KW 1
 #define CUR_COMPARE(a, an, b, bn) ((int)(a)[0] - (int)(b)[0])
 #include "contracts/it_cursor.h"
